@@ -328,9 +328,18 @@ def apply_fault(dw, df: PD.Frame, letters, fault):
 
     def key(r):
         return tuple(r[i] for i in ci)
+    orig = list(rows)
     for f in fault.split("+"):
         if f in ("drop-first", "drop-middle", "drop-last", "drop"):
-            k = {"drop-first": 0, "drop-middle": len(rows) // 2, "drop-last": len(rows) - 1, "drop": 1}[f]
+            if f == "drop":
+                # in a combined fault: a genuine row that no other fault of the combination touches (not the duplicated first row,
+                # not an added one)
+                cands = [i for i, r in enumerate(rows) if any(r is o for o in orig[1:])]
+                if not cands:
+                    return None
+                k = cands[0]
+            else:
+                k = {"drop-first": 0, "drop-middle": len(rows) // 2, "drop-last": len(rows) - 1}[f]
             removed.append(key(rows[k]))
             del rows[k]
         elif f == "duplicate":
